@@ -5,8 +5,8 @@ import MsqModel.Driver.ShowVal
 /-!
 # C11 — trees are immutable, hashable values with structural equality
 
-(a) schema (S, kernel-evaluated on the class table regenerated from `/repo`): every AST dataclass is frozen, has a
-generated `__eq__`, uses slots and defines no `__setattr__` of its own;
+(a) schema (S, kernel-evaluated on the class table regenerated from `/repo`): every AST dataclass is frozen, uses slots, is hashable
+and has exactly the generated `__eq__` / `__hash__` / `__setattr__` (no special method written by hand);
 (b) values (H): the generic value of EVERY typed tree — so of everything the parser model returns — contains no list
 (`Val.immutable`) and has, at every node, exactly the dataclass fields of its class in order (`Val.wellShaped` against
 the regenerated table);
@@ -23,8 +23,12 @@ open Ast Help
 
 /-! ## (a) the class table -/
 
-/-- every dataclass of `core/node.py` (abstract ones included) is `frozen ∧ eq ∧ slots` and has no `__setattr__` of its own -/
-theorem schema_frozen : (Gen.schema.all fun c => c.frozen && c.eq && c.slots && !c.ownSetattr) = true := by decide +kernel
+/-- every dataclass of `core/node.py` (abstract ones included) is `frozen ∧ eq ∧ slots`, is hashable, and writes none of the special
+methods `__eq__ / __ne__ / __hash__ / __setattr__ / __delattr__ / __lt__ … / __getattr(ibute)__` by hand: equality, hash and attribute
+protection are exactly the ones the dataclass decorator generates from the fields (a hand-written `__eq__` would be kept by the decorator
+while `__hash__` is still generated from the raw fields) -/
+theorem schema_frozen :
+    (Gen.schema.all fun c => c.frozen && c.eq && c.slots && !c.ownSetattr && c.ownSpecial.isEmpty && c.hashable) = true := by decide +kernel
 
 /-- the (class, field names) pairs built by `toVal` are exactly the dataclass fields of the regenerated class table -/
 theorem shapes_ok : (shapes.all fun p => Gen.fieldsOf p.1 == some p.2) = true := by decide +kernel
